@@ -118,85 +118,85 @@ macro_rules! ostep {
 }
 
 // ---- grid ----
-// @h prop=C02 unwind=10 rec=2 cutfmt=1 uw=same_output.0:25;exit_model.0:25;exit.0:25;push.0:17;write.0:17 timeout=1200 mem=12 what=형_commits
+// @h prop=C02 unwind=10 rec=2 cutfmt=1 uw=same_output.0:25;exit_model.0:25;exit.0:25;push.0:17;write.0:17 timeout=3600 mem=12 what=형_commits
 ostep!(o_push, Cfg { kind: 0, h: 2, d: 3, depth: [0, 0, 0, 1, 0, 0], ..CFG0 });
-// @h prop=C02 unwind=10 rec=2 cutfmt=1 uw=same_output.0:25;exit_model.0:25;exit.0:25;push.0:17;write.0:17 timeout=1200 mem=12 what=항_2_operands
+// @h prop=C02 unwind=10 rec=2 cutfmt=1 uw=same_output.0:25;exit_model.0:25;exit.0:25;push.0:17;write.0:17 timeout=3600 mem=12 what=항_2_operands
 ostep!(o_add2, Cfg { kind: 1, h: 2, d: 4, depth: [0, 0, 0, 3, 1, 0], ..CFG0 });
-// @h prop=C02 unwind=10 rec=2 cutfmt=1 uw=same_output.0:25;exit_model.0:25;exit.0:25;push.0:17;write.0:17 timeout=1200 mem=12 what=핫_2_operands
+// @h prop=C02 unwind=10 rec=2 cutfmt=1 uw=same_output.0:25;exit_model.0:25;exit.0:25;push.0:17;write.0:17 timeout=3600 mem=12 what=핫_2_operands
 ostep!(o_mul2, Cfg { kind: 2, h: 2, d: 5, depth: [0, 0, 0, 2, 0, 1], ..CFG0 });
-// @h prop=C02 unwind=10 rec=2 cutfmt=1 uw=same_output.0:25;exit_model.0:25;exit.0:25;push.0:17;write.0:17 timeout=1200 mem=12 what=흣_1_operand
+// @h prop=C02 unwind=10 rec=2 cutfmt=1 uw=same_output.0:25;exit_model.0:25;exit.0:25;push.0:17;write.0:17 timeout=3600 mem=12 what=흣_1_operand
 ostep!(o_neg1, Cfg { kind: 3, h: 1, d: 4, depth: [0, 0, 0, 2, 0, 0], ..CFG0 });
-// @h prop=C02 unwind=10 rec=2 cutfmt=1 uw=same_output.0:25;exit_model.0:25;exit.0:25;push.0:17;write.0:17 timeout=1200 mem=12 what=흣_2_operands:restored_in_original_order
+// @h prop=C02 unwind=10 rec=2 cutfmt=1 uw=same_output.0:25;exit_model.0:25;exit.0:25;push.0:17;write.0:17 timeout=3600 mem=12 what=흣_2_operands:restored_in_original_order
 ostep!(o_neg2, Cfg { kind: 3, h: 2, d: 4, depth: [0, 0, 0, 2, 0, 0], ..CFG0 });
-// @h prop=C02 unwind=10 rec=2 cutfmt=1 uw=same_output.0:25;exit_model.0:25;exit.0:25;push.0:17;write.0:17 timeout=900 tier=thorough kind=stretch what=흣_3_operands
+// @h prop=C02 unwind=10 rec=2 cutfmt=1 uw=same_output.0:25;exit_model.0:25;exit.0:25;push.0:17;write.0:17 timeout=2700 tier=thorough kind=stretch what=흣_3_operands
 ostep!(o_neg3, Cfg { kind: 3, h: 3, d: 4, depth: [0, 0, 0, 3, 0, 0], ..CFG0 });
-// @h prop=C02 unwind=10 rec=2 cutfmt=1 uw=same_output.0:25;exit_model.0:25;exit.0:25;push.0:17;write.0:17 timeout=900 what=흡_2_operands:restored_in_original_order
+// @h prop=C02 unwind=10 rec=2 cutfmt=1 uw=same_output.0:25;exit_model.0:25;exit.0:25;push.0:17;write.0:17 timeout=2700 what=흡_2_operands:restored_in_original_order
 ostep!(o_inv2, Cfg { kind: 4, h: 2, d: 4, dom: Dom::Frac, depth: [0, 0, 0, 2, 0, 0], ..CFG0 });
-// @h prop=C02 unwind=10 rec=2 cutfmt=1 uw=same_output.0:25;exit_model.0:25;exit.0:25;push.0:17;write.0:17 timeout=1200 mem=12 what=흑_select_4
+// @h prop=C02 unwind=10 rec=2 cutfmt=1 uw=same_output.0:25;exit_model.0:25;exit.0:25;push.0:17;write.0:17 timeout=3600 mem=12 what=흑_select_4
 ostep!(o_dup1, Cfg { kind: 5, h: 1, d: 4, depth: [0, 0, 0, 2, 1, 0], ..CFG0 });
-// @h prop=C02 unwind=10 rec=3 cutfmt=1 uw=same_output.0:25;exit_model.0:25;exit.0:25;push.0:17;write.0:17 timeout=900 tier=thorough kind=stretch what=흑_then_?_on_the_new_stack
+// @h prop=C02 unwind=10 rec=3 cutfmt=1 uw=same_output.0:25;exit_model.0:25;exit.0:25;push.0:17;write.0:17 timeout=2700 tier=thorough kind=stretch what=흑_then_?_on_the_new_stack
 ostep!(o_dup_area, Cfg { kind: 5, h: 1, d: 4, area: 3, depth: [0, 0, 0, 2, 2, 0], ..CFG0 });
-// @h prop=C02 unwind=10 rec=2 cutfmt=1 uw=same_output.0:25;exit_model.0:25;exit.0:25;push.0:17;write.0:17 timeout=1200 mem=12 what=label_registration_is_part_of_the_committed_state
+// @h prop=C02 unwind=10 rec=2 cutfmt=1 uw=same_output.0:25;exit_model.0:25;exit.0:25;push.0:17;write.0:17 timeout=3600 mem=12 what=label_registration_is_part_of_the_committed_state
 ostep!(o_heart_new, Cfg { kind: 0, h: 1, d: 2, area: 1, depth: [0, 0, 0, 1, 0, 0], ..CFG0 });
-// @h prop=C02 unwind=10 rec=3 cutfmt=1 uw=same_output.0:25;exit_model.0:25;exit.0:25;push.0:17;write.0:17 timeout=900 what=?_area_pop_on_stack_3
+// @h prop=C02 unwind=10 rec=3 cutfmt=1 uw=same_output.0:25;exit_model.0:25;exit.0:25;push.0:17;write.0:17 timeout=2700 what=?_area_pop_on_stack_3
 ostep!(o_q, Cfg { kind: 0, h: 1, d: 2, area: 3, depth: [0, 0, 0, 2, 0, 0], ..CFG0 });
-// @h prop=C02 unwind=10 rec=2 cutfmt=num uw=same_output.0:25;exit_model.0:25;exit.0:25;push.0:17;write.0:17 timeout=1800 tier=thorough kind=stretch what=항_to_stdout:captured_output_equals_definition_or_same_encoding_error
+// @h prop=C02 unwind=10 rec=2 cutfmt=num uw=same_output.0:25;exit_model.0:25;exit.0:25;push.0:17;write.0:17 timeout=3600 tier=thorough kind=stretch what=항_to_stdout:captured_output_equals_definition_or_same_encoding_error
 ostep!(o_out_char, Cfg { kind: 1, h: 1, d: 1, dom: Dom::Scalar, depth: [0, 0, 0, 2, 0, 0], ..CFG0 });
-// @h prop=C02 unwind=10 rec=2 cutfmt=num uw=same_output.0:25;exit_model.0:25;exit.0:25;push.0:17;write.0:17 timeout=900 tier=thorough kind=stretch what=항_to_stderr:negative/NaN_text_captured
+// @h prop=C02 unwind=10 rec=2 cutfmt=num uw=same_output.0:25;exit_model.0:25;exit.0:25;push.0:17;write.0:17 timeout=2700 tier=thorough kind=stretch what=항_to_stderr:negative/NaN_text_captured
 ostep!(o_err_neg, Cfg { kind: 1, h: 1, d: 2, dom: Dom::Digit, depth: [0, 0, 0, 2, 0, 0], ..CFG0 });
-// @h prop=C02 unwind=10 rec=3 cutfmt=num uw=same_output.0:25;exit_model.0:25;exit.0:25;push.0:17;write.0:17 timeout=900 what=형?_with_stdout_selected:prints_then_must_give_up->no_output_kept,state_restored
+// @h prop=C02 unwind=10 rec=3 cutfmt=num uw=same_output.0:25;exit_model.0:25;exit.0:25;push.0:17;write.0:17 timeout=2700 what=형?_with_stdout_selected:prints_then_must_give_up->no_output_kept,state_restored
 ostep!(o_print_then_bail, Cfg { kind: 0, h: 8, d: 8, cur: 1, area: 3, depth: [0, 0, 0, 1, 0, 0], ..CFG0 });
-// @h prop=C02 unwind=10 rec=3 cutfmt=num uw=same_output.0:25;exit_model.0:25;exit.0:25;push.0:17;write.0:17 timeout=900 tier=thorough kind=stretch what=흑_copies_to_stdout,selects_it,area_pop_forces_giving_up
+// @h prop=C02 unwind=10 rec=3 cutfmt=num uw=same_output.0:25;exit_model.0:25;exit.0:25;push.0:17;write.0:17 timeout=2700 tier=thorough kind=stretch what=흑_copies_to_stdout,selects_it,area_pop_forces_giving_up
 ostep!(o_dup_print_bail, Cfg { kind: 5, h: 2, d: 1, area: 4, dom: Dom::Scalar, depth: [0, 0, 0, 1, 0, 0], ..CFG0 });
-// @h prop=C02 unwind=10 rec=3 cutfmt=num uw=same_output.0:25;exit_model.0:25;exit.0:25;push.0:17;write.0:17 timeout=900 tier=thorough kind=stretch what=흣_to_stderr_then_?_on_stack_3:commits_with_output
+// @h prop=C02 unwind=10 rec=3 cutfmt=num uw=same_output.0:25;exit_model.0:25;exit.0:25;push.0:17;write.0:17 timeout=2700 tier=thorough kind=stretch what=흣_to_stderr_then_?_on_stack_3:commits_with_output
 ostep!(o_neg_out_bail, Cfg { kind: 3, h: 1, d: 2, cur: 3, area: 3, dom: Dom::Digit, depth: [0, 0, 0, 1, 0, 0], ..CFG0 });
-// @h prop=C10 unwind=10 rec=2 cutfmt=1 uw=same_output.0:25;exit_model.0:25;exit.0:25;push.0:17;write.0:17 timeout=1200 mem=12 what=kind_1_with_stack_0_selected:gives_up,state_untouched,no_read,no_exit,no_output
+// @h prop=C10 unwind=10 rec=2 cutfmt=1 uw=same_output.0:25;exit_model.0:25;exit.0:25;push.0:17;write.0:17 timeout=3600 mem=12 what=kind_1_with_stack_0_selected:gives_up,state_untouched,no_read,no_exit,no_output
 ostep!(n_k1_c0, Cfg { kind: 1, h: 1, d: 3, cur: 0, depth: [1, 0, 0, 1, 0, 0], ..CFG0 });
-// @h prop=C10 unwind=10 rec=2 cutfmt=1 uw=same_output.0:25;exit_model.0:25;exit.0:25;push.0:17;write.0:17 timeout=1200 mem=12 what=kind_2_with_stack_0_selected:gives_up,state_untouched,no_read,no_exit,no_output
+// @h prop=C10 unwind=10 rec=2 cutfmt=1 uw=same_output.0:25;exit_model.0:25;exit.0:25;push.0:17;write.0:17 timeout=3600 mem=12 what=kind_2_with_stack_0_selected:gives_up,state_untouched,no_read,no_exit,no_output
 ostep!(n_k2_c0, Cfg { kind: 2, h: 2, d: 3, cur: 0, depth: [1, 0, 0, 1, 0, 0], ..CFG0 });
-// @h prop=C10 unwind=10 rec=2 cutfmt=1 uw=same_output.0:25;exit_model.0:25;exit.0:25;push.0:17;write.0:17 timeout=1200 mem=12 what=kind_3_with_stack_0_selected:gives_up,state_untouched,no_read,no_exit,no_output
+// @h prop=C10 unwind=10 rec=2 cutfmt=1 uw=same_output.0:25;exit_model.0:25;exit.0:25;push.0:17;write.0:17 timeout=3600 mem=12 what=kind_3_with_stack_0_selected:gives_up,state_untouched,no_read,no_exit,no_output
 ostep!(n_k3_c0, Cfg { kind: 3, h: 2, d: 3, cur: 0, depth: [1, 0, 0, 1, 0, 0], ..CFG0 });
-// @h prop=C10 unwind=10 rec=2 cutfmt=1 uw=same_output.0:25;exit_model.0:25;exit.0:25;push.0:17;write.0:17 timeout=1200 mem=12 what=kind_4_with_stack_0_selected:gives_up,state_untouched,no_read,no_exit,no_output
+// @h prop=C10 unwind=10 rec=2 cutfmt=1 uw=same_output.0:25;exit_model.0:25;exit.0:25;push.0:17;write.0:17 timeout=3600 mem=12 what=kind_4_with_stack_0_selected:gives_up,state_untouched,no_read,no_exit,no_output
 ostep!(n_k4_c0, Cfg { kind: 4, h: 1, d: 3, cur: 0, depth: [1, 0, 0, 1, 0, 0], ..CFG0 });
-// @h prop=C10 unwind=10 rec=2 cutfmt=1 uw=same_output.0:25;exit_model.0:25;exit.0:25;push.0:17;write.0:17 timeout=1200 mem=12 what=kind_5_with_stack_0_selected:gives_up,state_untouched,no_read,no_exit,no_output
+// @h prop=C10 unwind=10 rec=2 cutfmt=1 uw=same_output.0:25;exit_model.0:25;exit.0:25;push.0:17;write.0:17 timeout=3600 mem=12 what=kind_5_with_stack_0_selected:gives_up,state_untouched,no_read,no_exit,no_output
 ostep!(n_k5_c0, Cfg { kind: 5, h: 1, d: 3, cur: 0, depth: [1, 0, 0, 1, 0, 0], ..CFG0 });
-// @h prop=C10 unwind=10 rec=3 cutfmt=num uw=same_output.0:25;exit_model.0:25;exit.0:25;push.0:17;write.0:17 timeout=1200 mem=12 what=형?_with_stack_0_selected:push_then_area_pop->gives_up
+// @h prop=C10 unwind=10 rec=3 cutfmt=num uw=same_output.0:25;exit_model.0:25;exit.0:25;push.0:17;write.0:17 timeout=3600 mem=12 what=형?_with_stack_0_selected:push_then_area_pop->gives_up
 ostep!(n_area_c0, Cfg { kind: 0, h: 1, d: 1, cur: 0, area: 3, depth: [1, 0, 0, 1, 0, 0], ..CFG0 });
-// @h prop=C10 unwind=10 rec=3 cutfmt=num uw=same_output.0:25;exit_model.0:25;exit.0:25;push.0:17;write.0:17 timeout=1200 mem=12 what=흑_selects_stack_0_then_!_area_pop->gives_up
+// @h prop=C10 unwind=10 rec=3 cutfmt=num uw=same_output.0:25;exit_model.0:25;exit.0:25;push.0:17;write.0:17 timeout=3600 mem=12 what=흑_selects_stack_0_then_!_area_pop->gives_up
 ostep!(n_dup_to_c0, Cfg { kind: 5, h: 1, d: 0, area: 4, depth: [1, 0, 0, 1, 0, 0], ..CFG0 });
-// @h prop=C10 unwind=10 rec=2 cutfmt=1 uw=same_output.0:25;exit_model.0:25;exit.0:25;push.0:17;write.0:17 timeout=1200 mem=12 what=kind_1_with_stack_1_selected:gives_up,state_untouched,no_read,no_exit,no_output
+// @h prop=C10 unwind=10 rec=2 cutfmt=1 uw=same_output.0:25;exit_model.0:25;exit.0:25;push.0:17;write.0:17 timeout=3600 mem=12 what=kind_1_with_stack_1_selected:gives_up,state_untouched,no_read,no_exit,no_output
 ostep!(n_k1_c1, Cfg { kind: 1, h: 1, d: 3, cur: 1, depth: [1, 0, 0, 1, 0, 0], ..CFG0 });
-// @h prop=C10 unwind=10 rec=2 cutfmt=1 uw=same_output.0:25;exit_model.0:25;exit.0:25;push.0:17;write.0:17 timeout=1200 mem=12 what=kind_2_with_stack_1_selected:gives_up,state_untouched,no_read,no_exit,no_output
+// @h prop=C10 unwind=10 rec=2 cutfmt=1 uw=same_output.0:25;exit_model.0:25;exit.0:25;push.0:17;write.0:17 timeout=3600 mem=12 what=kind_2_with_stack_1_selected:gives_up,state_untouched,no_read,no_exit,no_output
 ostep!(n_k2_c1, Cfg { kind: 2, h: 2, d: 3, cur: 1, depth: [1, 0, 0, 1, 0, 0], ..CFG0 });
-// @h prop=C10 unwind=10 rec=2 cutfmt=1 uw=same_output.0:25;exit_model.0:25;exit.0:25;push.0:17;write.0:17 timeout=1200 mem=12 what=kind_3_with_stack_1_selected:gives_up,state_untouched,no_read,no_exit,no_output
+// @h prop=C10 unwind=10 rec=2 cutfmt=1 uw=same_output.0:25;exit_model.0:25;exit.0:25;push.0:17;write.0:17 timeout=3600 mem=12 what=kind_3_with_stack_1_selected:gives_up,state_untouched,no_read,no_exit,no_output
 ostep!(n_k3_c1, Cfg { kind: 3, h: 2, d: 3, cur: 1, depth: [1, 0, 0, 1, 0, 0], ..CFG0 });
-// @h prop=C10 unwind=10 rec=2 cutfmt=1 uw=same_output.0:25;exit_model.0:25;exit.0:25;push.0:17;write.0:17 timeout=1200 mem=12 what=kind_4_with_stack_1_selected:gives_up,state_untouched,no_read,no_exit,no_output
+// @h prop=C10 unwind=10 rec=2 cutfmt=1 uw=same_output.0:25;exit_model.0:25;exit.0:25;push.0:17;write.0:17 timeout=3600 mem=12 what=kind_4_with_stack_1_selected:gives_up,state_untouched,no_read,no_exit,no_output
 ostep!(n_k4_c1, Cfg { kind: 4, h: 1, d: 3, cur: 1, depth: [1, 0, 0, 1, 0, 0], ..CFG0 });
-// @h prop=C10 unwind=10 rec=2 cutfmt=1 uw=same_output.0:25;exit_model.0:25;exit.0:25;push.0:17;write.0:17 timeout=1200 mem=12 what=kind_5_with_stack_1_selected:gives_up,state_untouched,no_read,no_exit,no_output
+// @h prop=C10 unwind=10 rec=2 cutfmt=1 uw=same_output.0:25;exit_model.0:25;exit.0:25;push.0:17;write.0:17 timeout=3600 mem=12 what=kind_5_with_stack_1_selected:gives_up,state_untouched,no_read,no_exit,no_output
 ostep!(n_k5_c1, Cfg { kind: 5, h: 1, d: 3, cur: 1, depth: [1, 0, 0, 1, 0, 0], ..CFG0 });
-// @h prop=C10 unwind=10 rec=3 cutfmt=num uw=same_output.0:25;exit_model.0:25;exit.0:25;push.0:17;write.0:17 timeout=1200 mem=12 what=형?_with_stack_1_selected:push_then_area_pop->gives_up
+// @h prop=C10 unwind=10 rec=3 cutfmt=num uw=same_output.0:25;exit_model.0:25;exit.0:25;push.0:17;write.0:17 timeout=3600 mem=12 what=형?_with_stack_1_selected:push_then_area_pop->gives_up
 ostep!(n_area_c1, Cfg { kind: 0, h: 1, d: 1, cur: 1, area: 3, depth: [1, 0, 0, 1, 0, 0], ..CFG0 });
-// @h prop=C10 unwind=10 rec=3 cutfmt=num uw=same_output.0:25;exit_model.0:25;exit.0:25;push.0:17;write.0:17 timeout=1200 mem=12 tier=thorough kind=stretch what=흑_selects_stack_1_then_!_area_pop->gives_up
+// @h prop=C10 unwind=10 rec=3 cutfmt=num uw=same_output.0:25;exit_model.0:25;exit.0:25;push.0:17;write.0:17 timeout=3600 mem=12 tier=thorough kind=stretch what=흑_selects_stack_1_then_!_area_pop->gives_up
 ostep!(n_dup_to_c1, Cfg { kind: 5, h: 1, d: 1, area: 4, dom: Dom::Digit, depth: [1, 0, 0, 1, 0, 0], ..CFG0 });
-// @h prop=C10 unwind=10 rec=2 cutfmt=1 uw=same_output.0:25;exit_model.0:25;exit.0:25;push.0:17;write.0:17 timeout=1200 mem=12 what=kind_1_with_stack_2_selected:gives_up,state_untouched,no_read,no_exit,no_output
+// @h prop=C10 unwind=10 rec=2 cutfmt=1 uw=same_output.0:25;exit_model.0:25;exit.0:25;push.0:17;write.0:17 timeout=3600 mem=12 what=kind_1_with_stack_2_selected:gives_up,state_untouched,no_read,no_exit,no_output
 ostep!(n_k1_c2, Cfg { kind: 1, h: 1, d: 3, cur: 2, depth: [1, 0, 0, 1, 0, 0], ..CFG0 });
-// @h prop=C10 unwind=10 rec=2 cutfmt=1 uw=same_output.0:25;exit_model.0:25;exit.0:25;push.0:17;write.0:17 timeout=1200 mem=12 what=kind_2_with_stack_2_selected:gives_up,state_untouched,no_read,no_exit,no_output
+// @h prop=C10 unwind=10 rec=2 cutfmt=1 uw=same_output.0:25;exit_model.0:25;exit.0:25;push.0:17;write.0:17 timeout=3600 mem=12 what=kind_2_with_stack_2_selected:gives_up,state_untouched,no_read,no_exit,no_output
 ostep!(n_k2_c2, Cfg { kind: 2, h: 2, d: 3, cur: 2, depth: [1, 0, 0, 1, 0, 0], ..CFG0 });
-// @h prop=C10 unwind=10 rec=2 cutfmt=1 uw=same_output.0:25;exit_model.0:25;exit.0:25;push.0:17;write.0:17 timeout=1200 mem=12 what=kind_3_with_stack_2_selected:gives_up,state_untouched,no_read,no_exit,no_output
+// @h prop=C10 unwind=10 rec=2 cutfmt=1 uw=same_output.0:25;exit_model.0:25;exit.0:25;push.0:17;write.0:17 timeout=3600 mem=12 what=kind_3_with_stack_2_selected:gives_up,state_untouched,no_read,no_exit,no_output
 ostep!(n_k3_c2, Cfg { kind: 3, h: 2, d: 3, cur: 2, depth: [1, 0, 0, 1, 0, 0], ..CFG0 });
-// @h prop=C10 unwind=10 rec=2 cutfmt=1 uw=same_output.0:25;exit_model.0:25;exit.0:25;push.0:17;write.0:17 timeout=1200 mem=12 what=kind_4_with_stack_2_selected:gives_up,state_untouched,no_read,no_exit,no_output
+// @h prop=C10 unwind=10 rec=2 cutfmt=1 uw=same_output.0:25;exit_model.0:25;exit.0:25;push.0:17;write.0:17 timeout=3600 mem=12 what=kind_4_with_stack_2_selected:gives_up,state_untouched,no_read,no_exit,no_output
 ostep!(n_k4_c2, Cfg { kind: 4, h: 1, d: 3, cur: 2, depth: [1, 0, 0, 1, 0, 0], ..CFG0 });
-// @h prop=C10 unwind=10 rec=2 cutfmt=1 uw=same_output.0:25;exit_model.0:25;exit.0:25;push.0:17;write.0:17 timeout=1200 mem=12 what=kind_5_with_stack_2_selected:gives_up,state_untouched,no_read,no_exit,no_output
+// @h prop=C10 unwind=10 rec=2 cutfmt=1 uw=same_output.0:25;exit_model.0:25;exit.0:25;push.0:17;write.0:17 timeout=3600 mem=12 what=kind_5_with_stack_2_selected:gives_up,state_untouched,no_read,no_exit,no_output
 ostep!(n_k5_c2, Cfg { kind: 5, h: 1, d: 3, cur: 2, depth: [1, 0, 0, 1, 0, 0], ..CFG0 });
-// @h prop=C10 unwind=10 rec=3 cutfmt=num uw=same_output.0:25;exit_model.0:25;exit.0:25;push.0:17;write.0:17 timeout=1200 mem=12 what=형?_with_stack_2_selected:push_then_area_pop->gives_up
+// @h prop=C10 unwind=10 rec=3 cutfmt=num uw=same_output.0:25;exit_model.0:25;exit.0:25;push.0:17;write.0:17 timeout=3600 mem=12 what=형?_with_stack_2_selected:push_then_area_pop->gives_up
 ostep!(n_area_c2, Cfg { kind: 0, h: 1, d: 1, cur: 2, area: 3, depth: [1, 0, 0, 1, 0, 0], ..CFG0 });
-// @h prop=C10 unwind=10 rec=3 cutfmt=num uw=same_output.0:25;exit_model.0:25;exit.0:25;push.0:17;write.0:17 timeout=1200 mem=12 tier=thorough kind=stretch what=흑_selects_stack_2_then_!_area_pop->gives_up
+// @h prop=C10 unwind=10 rec=3 cutfmt=num uw=same_output.0:25;exit_model.0:25;exit.0:25;push.0:17;write.0:17 timeout=3600 mem=12 tier=thorough kind=stretch what=흑_selects_stack_2_then_!_area_pop->gives_up
 ostep!(n_dup_to_c2, Cfg { kind: 5, h: 1, d: 2, area: 4, dom: Dom::Digit, depth: [1, 0, 0, 1, 0, 0], ..CFG0 });
-// @h prop=C10 unwind=10 rec=2 cutfmt=1 uw=same_output.0:25;exit_model.0:25;exit.0:25;push.0:17;write.0:17 timeout=1200 mem=12 what=형_with_stdin_selected_and_no_area:pushes_onto_the_input_buffer,commits,no_read
+// @h prop=C10 unwind=10 rec=2 cutfmt=1 uw=same_output.0:25;exit_model.0:25;exit.0:25;push.0:17;write.0:17 timeout=3600 mem=12 what=형_with_stdin_selected_and_no_area:pushes_onto_the_input_buffer,commits,no_read
 ostep!(n_push_c0, Cfg { kind: 0, h: 2, d: 2, cur: 0, depth: [1, 0, 0, 0, 0, 0], ..CFG0 });
 
 // vacuity twin (must FAIL)
-// @h prop=C02 unwind=10 rec=2 cutfmt=1 uw=same_output.0:25;exit_model.0:25;exit.0:25;push.0:17;write.0:17 timeout=1200 mem=12 kind=twin
+// @h prop=C02 unwind=10 rec=2 cutfmt=1 uw=same_output.0:25;exit_model.0:25;exit.0:25;push.0:17;write.0:17 timeout=3600 mem=12 kind=twin
 #[cfg_attr(kani, kani::proof)]
 #[cfg_attr(kani, kani::stub(crate::number::num::Num::add, m_num_add))]
 #[cfg_attr(kani, kani::stub(crate::number::num::Num::mul, m_num_mul))]
@@ -210,7 +210,7 @@ pub fn twin_ostep() {
     opt_check(&c);
     assert!(false);
 }
-// @h prop=C10 unwind=10 rec=2 cutfmt=1 uw=same_output.0:25;exit_model.0:25;exit.0:25;push.0:17;write.0:17 timeout=1200 mem=12 kind=twin
+// @h prop=C10 unwind=10 rec=2 cutfmt=1 uw=same_output.0:25;exit_model.0:25;exit.0:25;push.0:17;write.0:17 timeout=3600 mem=12 kind=twin
 #[cfg_attr(kani, kani::proof)]
 #[cfg_attr(kani, kani::stub(crate::number::num::Num::add, m_num_add))]
 #[cfg_attr(kani, kani::stub(crate::number::num::Num::mul, m_num_mul))]
@@ -300,27 +300,27 @@ macro_rules! optstate {
         }
     };
 }
-// @h prop=C02 unwind=8 timeout=600 mem=12 tier=thorough kind=stretch stubs=RandomState::new->fixed_keys what=OptState::push_stack/pop_stack_on_stack_0_of_5,pre-depth_0:NaN_rule_of_the_trait_default,out-of-range=no-op/NaN
+// @h prop=C02 unwind=8 timeout=2400 mem=12 tier=thorough kind=stretch stubs=RandomState::new->fixed_keys what=OptState::push_stack/pop_stack_on_stack_0_of_5,pre-depth_0:NaN_rule_of_the_trait_default,out-of-range=no-op/NaN
 optstate!(optstate_i0_d0, 0, 0);
-// @h prop=C02 unwind=8 timeout=600 mem=12 tier=thorough kind=stretch stubs=RandomState::new->fixed_keys what=OptState::push_stack/pop_stack_on_stack_0_of_5,pre-depth_1:NaN_rule_of_the_trait_default,out-of-range=no-op/NaN
+// @h prop=C02 unwind=8 timeout=2400 mem=12 tier=thorough kind=stretch stubs=RandomState::new->fixed_keys what=OptState::push_stack/pop_stack_on_stack_0_of_5,pre-depth_1:NaN_rule_of_the_trait_default,out-of-range=no-op/NaN
 optstate!(optstate_i0_d1, 0, 1);
-// @h prop=C02 unwind=8 timeout=600 mem=12 tier=thorough kind=stretch stubs=RandomState::new->fixed_keys what=OptState::push_stack/pop_stack_on_stack_0_of_5,pre-depth_2:NaN_rule_of_the_trait_default,out-of-range=no-op/NaN
+// @h prop=C02 unwind=8 timeout=2400 mem=12 tier=thorough kind=stretch stubs=RandomState::new->fixed_keys what=OptState::push_stack/pop_stack_on_stack_0_of_5,pre-depth_2:NaN_rule_of_the_trait_default,out-of-range=no-op/NaN
 optstate!(optstate_i0_d2, 0, 2);
-// @h prop=C02 unwind=8 timeout=600 mem=12 tier=thorough kind=stretch stubs=RandomState::new->fixed_keys what=OptState::push_stack/pop_stack_on_stack_3_of_5,pre-depth_0:NaN_rule_of_the_trait_default,out-of-range=no-op/NaN
+// @h prop=C02 unwind=8 timeout=2400 mem=12 tier=thorough kind=stretch stubs=RandomState::new->fixed_keys what=OptState::push_stack/pop_stack_on_stack_3_of_5,pre-depth_0:NaN_rule_of_the_trait_default,out-of-range=no-op/NaN
 optstate!(optstate_i3_d0, 3, 0);
-// @h prop=C02 unwind=8 timeout=600 mem=12 tier=thorough kind=stretch stubs=RandomState::new->fixed_keys what=OptState::push_stack/pop_stack_on_stack_3_of_5,pre-depth_1:NaN_rule_of_the_trait_default,out-of-range=no-op/NaN
+// @h prop=C02 unwind=8 timeout=2400 mem=12 tier=thorough kind=stretch stubs=RandomState::new->fixed_keys what=OptState::push_stack/pop_stack_on_stack_3_of_5,pre-depth_1:NaN_rule_of_the_trait_default,out-of-range=no-op/NaN
 optstate!(optstate_i3_d1, 3, 1);
-// @h prop=C02 unwind=8 timeout=600 mem=12 tier=thorough kind=stretch stubs=RandomState::new->fixed_keys what=OptState::push_stack/pop_stack_on_stack_3_of_5,pre-depth_2:NaN_rule_of_the_trait_default,out-of-range=no-op/NaN
+// @h prop=C02 unwind=8 timeout=2400 mem=12 tier=thorough kind=stretch stubs=RandomState::new->fixed_keys what=OptState::push_stack/pop_stack_on_stack_3_of_5,pre-depth_2:NaN_rule_of_the_trait_default,out-of-range=no-op/NaN
 optstate!(optstate_i3_d2, 3, 2);
-// @h prop=C02 unwind=8 timeout=600 mem=12 tier=thorough kind=stretch stubs=RandomState::new->fixed_keys what=OptState::push_stack/pop_stack_on_stack_4_of_5,pre-depth_0:NaN_rule_of_the_trait_default,out-of-range=no-op/NaN
+// @h prop=C02 unwind=8 timeout=2400 mem=12 tier=thorough kind=stretch stubs=RandomState::new->fixed_keys what=OptState::push_stack/pop_stack_on_stack_4_of_5,pre-depth_0:NaN_rule_of_the_trait_default,out-of-range=no-op/NaN
 optstate!(optstate_i4_d0, 4, 0);
-// @h prop=C02 unwind=8 timeout=600 mem=12 tier=thorough kind=stretch stubs=RandomState::new->fixed_keys what=OptState::push_stack/pop_stack_on_stack_4_of_5,pre-depth_1:NaN_rule_of_the_trait_default,out-of-range=no-op/NaN
+// @h prop=C02 unwind=8 timeout=2400 mem=12 tier=thorough kind=stretch stubs=RandomState::new->fixed_keys what=OptState::push_stack/pop_stack_on_stack_4_of_5,pre-depth_1:NaN_rule_of_the_trait_default,out-of-range=no-op/NaN
 optstate!(optstate_i4_d1, 4, 1);
-// @h prop=C02 unwind=8 timeout=600 mem=12 tier=thorough kind=stretch stubs=RandomState::new->fixed_keys what=OptState::push_stack/pop_stack_on_stack_4_of_5,pre-depth_2:NaN_rule_of_the_trait_default,out-of-range=no-op/NaN
+// @h prop=C02 unwind=8 timeout=2400 mem=12 tier=thorough kind=stretch stubs=RandomState::new->fixed_keys what=OptState::push_stack/pop_stack_on_stack_4_of_5,pre-depth_2:NaN_rule_of_the_trait_default,out-of-range=no-op/NaN
 optstate!(optstate_i4_d2, 4, 2);
-// @h prop=C02 unwind=8 timeout=600 mem=12 stubs=RandomState::new->fixed_keys what=OptState::push_stack/pop_stack_on_stack_5_of_5,pre-depth_0:NaN_rule_of_the_trait_default,out-of-range=no-op/NaN
+// @h prop=C02 unwind=8 timeout=2400 mem=12 stubs=RandomState::new->fixed_keys what=OptState::push_stack/pop_stack_on_stack_5_of_5,pre-depth_0:NaN_rule_of_the_trait_default,out-of-range=no-op/NaN
 optstate!(optstate_i5_d0, 5, 0);
-// @h prop=C02 unwind=8 timeout=600 mem=12 stubs=RandomState::new->fixed_keys what=OptState::push_stack/pop_stack_on_stack_7_of_5,pre-depth_0:NaN_rule_of_the_trait_default,out-of-range=no-op/NaN
+// @h prop=C02 unwind=8 timeout=2400 mem=12 stubs=RandomState::new->fixed_keys what=OptState::push_stack/pop_stack_on_stack_7_of_5,pre-depth_0:NaN_rule_of_the_trait_default,out-of-range=no-op/NaN
 optstate!(optstate_i7_d0, 7, 0);
 
 // ===========================================================================
@@ -490,64 +490,64 @@ pub fn o_two_streams() {
 }
 
 // ---- additional grid points (thorough tier) ----
-// @h prop=C02 unwind=10 rec=2 cutfmt=1 uw=same_output.0:25;exit_model.0:25;exit.0:25;push.0:17;write.0:17 timeout=1200 mem=12 tier=thorough what=흡_1_integer_operand
+// @h prop=C02 unwind=10 rec=2 cutfmt=1 uw=same_output.0:25;exit_model.0:25;exit.0:25;push.0:17;write.0:17 timeout=3600 mem=12 tier=thorough what=흡_1_integer_operand
 ostep!(o_inv1, Cfg { kind: 4, h: 1, d: 4, depth: [0, 0, 0, 1, 0, 0], ..CFG0 });
-// @h prop=C02 unwind=10 rec=2 cutfmt=1 uw=same_output.0:25;exit_model.0:25;exit.0:25;push.0:17;write.0:17 timeout=1200 mem=12 tier=thorough what=흑_two_copies
+// @h prop=C02 unwind=10 rec=2 cutfmt=1 uw=same_output.0:25;exit_model.0:25;exit.0:25;push.0:17;write.0:17 timeout=3600 mem=12 tier=thorough what=흑_two_copies
 ostep!(o_dup2, Cfg { kind: 5, h: 2, d: 5, depth: [0, 0, 0, 1, 0, 0], ..CFG0 });
-// @h prop=C02 unwind=10 rec=3 cutfmt=1 uw=same_output.0:25;exit_model.0:25;exit.0:25;push.0:17;write.0:17 timeout=1200 mem=12 tier=thorough what=항_then_!
+// @h prop=C02 unwind=10 rec=3 cutfmt=1 uw=same_output.0:25;exit_model.0:25;exit.0:25;push.0:17;write.0:17 timeout=3600 mem=12 tier=thorough what=항_then_!
 ostep!(o_e, Cfg { kind: 1, h: 1, d: 4, area: 4, depth: [0, 0, 0, 2, 0, 0], ..CFG0 });
-// @h prop=C02 unwind=10 rec=2 cutfmt=1 uw=same_output.0:25;exit_model.0:25;exit.0:25;push.0:17;write.0:17 timeout=1200 mem=12 tier=thorough kind=stretch what=heart_with_a_symbolic_label_entry(jump_forward_out_of_the_prefix_or_registration)
+// @h prop=C02 unwind=10 rec=2 cutfmt=1 uw=same_output.0:25;exit_model.0:25;exit.0:25;push.0:17;write.0:17 timeout=3600 mem=12 tier=thorough kind=stretch what=heart_with_a_symbolic_label_entry(jump_forward_out_of_the_prefix_or_registration)
 ostep!(o_heart_tab, Cfg { kind: 0, h: 1, d: 2, area: 1, npts: 1, depth: [0, 0, 0, 1, 0, 0], ..CFG0 });
-// @h prop=C02 unwind=10 rec=2 cutfmt=1 uw=same_output.0:25;exit_model.0:25;exit.0:25;push.0:17;write.0:17 timeout=1200 mem=12 tier=thorough what=항_with_stack_4_selected
+// @h prop=C02 unwind=10 rec=2 cutfmt=1 uw=same_output.0:25;exit_model.0:25;exit.0:25;push.0:17;write.0:17 timeout=3600 mem=12 tier=thorough what=항_with_stack_4_selected
 ostep!(o_add2_c4, Cfg { kind: 1, h: 2, d: 5, cur: 4, depth: [0, 0, 0, 1, 2, 1], ..CFG0 });
-// @h prop=C10 unwind=10 rec=2 cutfmt=1 uw=same_output.0:25;exit_model.0:25;exit.0:25;push.0:17;write.0:17 timeout=1200 mem=12 tier=thorough what=항_2_operands_with_stdin_selected_and_2_buffered_values:still_gives_up
+// @h prop=C10 unwind=10 rec=2 cutfmt=1 uw=same_output.0:25;exit_model.0:25;exit.0:25;push.0:17;write.0:17 timeout=3600 mem=12 tier=thorough what=항_2_operands_with_stdin_selected_and_2_buffered_values:still_gives_up
 ostep!(n_k1h2_c0, Cfg { kind: 1, h: 2, d: 3, cur: 0, depth: [2, 0, 0, 1, 0, 0], ..CFG0 });
-// @h prop=C10 unwind=10 rec=3 cutfmt=num uw=same_output.0:25;exit_model.0:25;exit.0:25;push.0:17;write.0:17 timeout=1200 mem=12 tier=thorough what=형!_with_stdin_selected
+// @h prop=C10 unwind=10 rec=3 cutfmt=num uw=same_output.0:25;exit_model.0:25;exit.0:25;push.0:17;write.0:17 timeout=3600 mem=12 tier=thorough what=형!_with_stdin_selected
 ostep!(n_area_e_c0, Cfg { kind: 0, h: 1, d: 1, cur: 0, area: 4, depth: [1, 0, 0, 1, 0, 0], ..CFG0 });
 
 // @h prop=C02 unwind=10 rec=2 cutfmt=1 uw=same_output.0:25;exit_model.0:25;exit.0:25;push.0:17;write.0:17 timeout=14400 mem=24 tier=thorough kind=stretch what=heart_with_one_label_entry(symbolic_id)_registered_at_a_LATER_location:forward_jump_leaves_the_prefix(commit)_or_new_registration
 ostep!(o_heart_fwd, Cfg { kind: 0, h: 1, d: 2, area: 1, npts: 1, pts_fixed_loc: Some(NCODE + 2), depth: [0, 0, 0, 1, 0, 0], ..CFG0 });
-// @h prop=C02 unwind=10 rec=2 cutfmt=1 uw=same_output.0:25;exit_model.0:25;exit.0:25;push.0:17;write.0:17 timeout=1200 mem=12 what=핫_with_zero_dots_in_pre-execution
+// @h prop=C02 unwind=10 rec=2 cutfmt=1 uw=same_output.0:25;exit_model.0:25;exit.0:25;push.0:17;write.0:17 timeout=3600 mem=12 what=핫_with_zero_dots_in_pre-execution
 ostep!(o_mul_to0, Cfg { kind: 2, h: 2, d: 0, depth: [1, 0, 0, 2, 0, 0], ..CFG0 });
 
 // ---- pairwise grid (same points as C01's g_*): thorough tier, stretch ----
-// @h prop=C02 unwind=10 rec=2 cutfmt=1 uw=same_output.0:25;exit_model.0:25;exit.0:25;push.0:17;write.0:17 timeout=1800 mem=12 tier=thorough kind=stretch what=pairwise_grid_g_k5_h3_d3_a1_c3
+// @h prop=C02 unwind=10 rec=2 cutfmt=1 uw=same_output.0:25;exit_model.0:25;exit.0:25;push.0:17;write.0:17 timeout=3600 mem=12 tier=thorough kind=stretch what=pairwise_grid_g_k5_h3_d3_a1_c3
 ostep!(og_k5_h3_d3_a1_c3, Cfg { kind: 5, h: 3, d: 3, cur: 3, area: 1, npts: 1, dom: Dom::I8, depth: [0, 0, 0, 3, 0, 0], ..CFG0 });
-// @h prop=C02 unwind=10 rec=2 cutfmt=1 uw=same_output.0:25;exit_model.0:25;exit.0:25;push.0:17;write.0:17 timeout=1800 mem=12 tier=thorough kind=stretch what=pairwise_grid_g_k2_h1_d4_a0_c4
+// @h prop=C02 unwind=10 rec=2 cutfmt=1 uw=same_output.0:25;exit_model.0:25;exit.0:25;push.0:17;write.0:17 timeout=3600 mem=12 tier=thorough kind=stretch what=pairwise_grid_g_k2_h1_d4_a0_c4
 ostep!(og_k2_h1_d4_a0_c4, Cfg { kind: 2, h: 1, d: 4, cur: 4, area: 0, npts: 0, dom: Dom::Frac, depth: [0, 0, 0, 0, 1, 0], ..CFG0 });
-// @h prop=C02 unwind=10 rec=3 cutfmt=1 uw=same_output.0:25;exit_model.0:25;exit.0:25;push.0:17;write.0:17 timeout=1800 mem=12 tier=thorough kind=stretch what=pairwise_grid_g_k4_h2_d0_a4_c3
+// @h prop=C02 unwind=10 rec=3 cutfmt=1 uw=same_output.0:25;exit_model.0:25;exit.0:25;push.0:17;write.0:17 timeout=3600 mem=12 tier=thorough kind=stretch what=pairwise_grid_g_k4_h2_d0_a4_c3
 ostep!(og_k4_h2_d0_a4_c3, Cfg { kind: 4, h: 2, d: 0, cur: 3, area: 4, npts: 0, dom: Dom::Frac, depth: [0, 0, 0, 3, 0, 0], ..CFG0 });
-// @h prop=C02 unwind=10 rec=3 cutfmt=1 uw=same_output.0:25;exit_model.0:25;exit.0:25;push.0:17;write.0:17 timeout=1800 mem=12 tier=thorough kind=stretch what=pairwise_grid_g_k3_h2_d3_a3_c4
+// @h prop=C02 unwind=10 rec=3 cutfmt=1 uw=same_output.0:25;exit_model.0:25;exit.0:25;push.0:17;write.0:17 timeout=3600 mem=12 tier=thorough kind=stretch what=pairwise_grid_g_k3_h2_d3_a3_c4
 ostep!(og_k3_h2_d3_a3_c4, Cfg { kind: 3, h: 2, d: 3, cur: 4, area: 3, npts: 0, dom: Dom::I8, depth: [0, 0, 0, 1, 3, 0], ..CFG0 });
-// @h prop=C02 unwind=10 rec=3 cutfmt=1 uw=same_output.0:25;exit_model.0:25;exit.0:25;push.0:17;write.0:17 timeout=1800 mem=12 tier=thorough kind=stretch what=pairwise_grid_g_k1_h1_d0_a3_c3
+// @h prop=C02 unwind=10 rec=3 cutfmt=1 uw=same_output.0:25;exit_model.0:25;exit.0:25;push.0:17;write.0:17 timeout=3600 mem=12 tier=thorough kind=stretch what=pairwise_grid_g_k1_h1_d0_a3_c3
 ostep!(og_k1_h1_d0_a3_c3, Cfg { kind: 1, h: 1, d: 0, cur: 3, area: 3, npts: 0, dom: Dom::I8, depth: [0, 0, 0, 2, 0, 0], ..CFG0 });
-// @h prop=C02 unwind=10 rec=3 cutfmt=1 uw=same_output.0:25;exit_model.0:25;exit.0:25;push.0:17;write.0:17 timeout=1800 mem=12 tier=thorough kind=stretch what=pairwise_grid_g_k1_h3_d4_a4_c4
+// @h prop=C02 unwind=10 rec=3 cutfmt=1 uw=same_output.0:25;exit_model.0:25;exit.0:25;push.0:17;write.0:17 timeout=3600 mem=12 tier=thorough kind=stretch what=pairwise_grid_g_k1_h3_d4_a4_c4
 ostep!(og_k1_h3_d4_a4_c4, Cfg { kind: 1, h: 3, d: 4, cur: 4, area: 4, npts: 0, dom: Dom::I8, depth: [0, 0, 0, 0, 3, 0], ..CFG0 });
-// @h prop=C02 unwind=10 rec=2 cutfmt=1 uw=same_output.0:25;exit_model.0:25;exit.0:25;push.0:17;write.0:17 timeout=1800 mem=12 tier=thorough kind=stretch what=pairwise_grid_g_k3_h3_d0_a0_c3
+// @h prop=C02 unwind=10 rec=2 cutfmt=1 uw=same_output.0:25;exit_model.0:25;exit.0:25;push.0:17;write.0:17 timeout=3600 mem=12 tier=thorough kind=stretch what=pairwise_grid_g_k3_h3_d0_a0_c3
 ostep!(og_k3_h3_d0_a0_c3, Cfg { kind: 3, h: 3, d: 0, cur: 3, area: 0, npts: 0, dom: Dom::I8, depth: [0, 0, 0, 3, 0, 0], ..CFG0 });
-// @h prop=C02 unwind=10 rec=2 cutfmt=1 uw=same_output.0:25;exit_model.0:25;exit.0:25;push.0:17;write.0:17 timeout=1800 mem=12 tier=thorough kind=stretch what=pairwise_grid_g_k4_h1_d4_a1_c4
+// @h prop=C02 unwind=10 rec=2 cutfmt=1 uw=same_output.0:25;exit_model.0:25;exit.0:25;push.0:17;write.0:17 timeout=3600 mem=12 tier=thorough kind=stretch what=pairwise_grid_g_k4_h1_d4_a1_c4
 ostep!(og_k4_h1_d4_a1_c4, Cfg { kind: 4, h: 1, d: 4, cur: 4, area: 1, npts: 1, dom: Dom::Frac, depth: [0, 0, 0, 0, 1, 0], ..CFG0 });
-// @h prop=C02 unwind=10 rec=3 cutfmt=1 uw=same_output.0:25;exit_model.0:25;exit.0:25;push.0:17;write.0:17 timeout=1800 mem=12 tier=thorough kind=stretch what=pairwise_grid_g_k2_h1_d3_a4_c3
+// @h prop=C02 unwind=10 rec=3 cutfmt=1 uw=same_output.0:25;exit_model.0:25;exit.0:25;push.0:17;write.0:17 timeout=3600 mem=12 tier=thorough kind=stretch what=pairwise_grid_g_k2_h1_d3_a4_c3
 ostep!(og_k2_h1_d3_a4_c3, Cfg { kind: 2, h: 1, d: 3, cur: 3, area: 4, npts: 0, dom: Dom::Frac, depth: [0, 0, 0, 2, 0, 0], ..CFG0 });
-// @h prop=C02 unwind=10 rec=2 cutfmt=1 uw=same_output.0:25;exit_model.0:25;exit.0:25;push.0:17;write.0:17 timeout=1800 mem=12 tier=thorough kind=stretch what=pairwise_grid_g_k5_h2_d4_a0_c4
+// @h prop=C02 unwind=10 rec=2 cutfmt=1 uw=same_output.0:25;exit_model.0:25;exit.0:25;push.0:17;write.0:17 timeout=3600 mem=12 tier=thorough kind=stretch what=pairwise_grid_g_k5_h2_d4_a0_c4
 ostep!(og_k5_h2_d4_a0_c4, Cfg { kind: 5, h: 2, d: 4, cur: 4, area: 0, npts: 0, dom: Dom::I8, depth: [0, 0, 0, 0, 2, 0], ..CFG0 });
-// @h prop=C02 unwind=10 rec=2 cutfmt=1 uw=same_output.0:25;exit_model.0:25;exit.0:25;push.0:17;write.0:17 timeout=1800 mem=12 tier=thorough kind=stretch what=pairwise_grid_g_k2_h2_d0_a1_c4
+// @h prop=C02 unwind=10 rec=2 cutfmt=1 uw=same_output.0:25;exit_model.0:25;exit.0:25;push.0:17;write.0:17 timeout=3600 mem=12 tier=thorough kind=stretch what=pairwise_grid_g_k2_h2_d0_a1_c4
 ostep!(og_k2_h2_d0_a1_c4, Cfg { kind: 2, h: 2, d: 0, cur: 4, area: 1, npts: 1, dom: Dom::Frac, depth: [0, 0, 0, 0, 2, 0], ..CFG0 });
-// @h prop=C02 unwind=10 rec=3 cutfmt=1 uw=same_output.0:25;exit_model.0:25;exit.0:25;push.0:17;write.0:17 timeout=1800 mem=12 tier=thorough kind=stretch what=pairwise_grid_g_k4_h3_d4_a3_c3
+// @h prop=C02 unwind=10 rec=3 cutfmt=1 uw=same_output.0:25;exit_model.0:25;exit.0:25;push.0:17;write.0:17 timeout=3600 mem=12 tier=thorough kind=stretch what=pairwise_grid_g_k4_h3_d4_a3_c3
 ostep!(og_k4_h3_d4_a3_c3, Cfg { kind: 4, h: 3, d: 4, cur: 3, area: 3, npts: 0, dom: Dom::Frac, depth: [0, 0, 0, 3, 1, 0], ..CFG0 });
-// @h prop=C02 unwind=10 rec=2 cutfmt=1 uw=same_output.0:25;exit_model.0:25;exit.0:25;push.0:17;write.0:17 timeout=1800 mem=12 tier=thorough kind=stretch what=pairwise_grid_g_k1_h2_d3_a0_c4
+// @h prop=C02 unwind=10 rec=2 cutfmt=1 uw=same_output.0:25;exit_model.0:25;exit.0:25;push.0:17;write.0:17 timeout=3600 mem=12 tier=thorough kind=stretch what=pairwise_grid_g_k1_h2_d3_a0_c4
 ostep!(og_k1_h2_d3_a0_c4, Cfg { kind: 1, h: 2, d: 3, cur: 4, area: 0, npts: 0, dom: Dom::I8, depth: [0, 0, 0, 1, 2, 0], ..CFG0 });
-// @h prop=C02 unwind=10 rec=3 cutfmt=1 uw=same_output.0:25;exit_model.0:25;exit.0:25;push.0:17;write.0:17 timeout=1800 mem=12 tier=thorough kind=stretch what=pairwise_grid_g_k3_h1_d4_a4_c3
+// @h prop=C02 unwind=10 rec=3 cutfmt=1 uw=same_output.0:25;exit_model.0:25;exit.0:25;push.0:17;write.0:17 timeout=3600 mem=12 tier=thorough kind=stretch what=pairwise_grid_g_k3_h1_d4_a4_c3
 ostep!(og_k3_h1_d4_a4_c3, Cfg { kind: 3, h: 1, d: 4, cur: 3, area: 4, npts: 0, dom: Dom::I8, depth: [0, 0, 0, 2, 1, 0], ..CFG0 });
-// @h prop=C02 unwind=10 rec=3 cutfmt=1 uw=same_output.0:25;exit_model.0:25;exit.0:25;push.0:17;write.0:17 timeout=1800 mem=12 tier=thorough kind=stretch what=pairwise_grid_g_k5_h1_d0_a3_c4
+// @h prop=C02 unwind=10 rec=3 cutfmt=1 uw=same_output.0:25;exit_model.0:25;exit.0:25;push.0:17;write.0:17 timeout=3600 mem=12 tier=thorough kind=stretch what=pairwise_grid_g_k5_h1_d0_a3_c4
 ostep!(og_k5_h1_d0_a3_c4, Cfg { kind: 5, h: 1, d: 0, cur: 4, area: 3, npts: 0, dom: Dom::I8, depth: [0, 0, 0, 0, 2, 0], ..CFG0 });
-// @h prop=C02 unwind=10 rec=3 cutfmt=1 uw=same_output.0:25;exit_model.0:25;exit.0:25;push.0:17;write.0:17 timeout=1800 mem=12 tier=thorough kind=stretch what=pairwise_grid_g_k2_h3_d0_a3_c4
+// @h prop=C02 unwind=10 rec=3 cutfmt=1 uw=same_output.0:25;exit_model.0:25;exit.0:25;push.0:17;write.0:17 timeout=3600 mem=12 tier=thorough kind=stretch what=pairwise_grid_g_k2_h3_d0_a3_c4
 ostep!(og_k2_h3_d0_a3_c4, Cfg { kind: 2, h: 3, d: 0, cur: 4, area: 3, npts: 0, dom: Dom::Frac, depth: [0, 0, 0, 0, 3, 0], ..CFG0 });
-// @h prop=C02 unwind=10 rec=2 cutfmt=1 uw=same_output.0:25;exit_model.0:25;exit.0:25;push.0:17;write.0:17 timeout=1800 mem=12 tier=thorough kind=stretch what=pairwise_grid_g_k4_h1_d3_a0_c4
+// @h prop=C02 unwind=10 rec=2 cutfmt=1 uw=same_output.0:25;exit_model.0:25;exit.0:25;push.0:17;write.0:17 timeout=3600 mem=12 tier=thorough kind=stretch what=pairwise_grid_g_k4_h1_d3_a0_c4
 ostep!(og_k4_h1_d3_a0_c4, Cfg { kind: 4, h: 1, d: 3, cur: 4, area: 0, npts: 0, dom: Dom::Frac, depth: [0, 0, 0, 1, 1, 0], ..CFG0 });
-// @h prop=C02 unwind=10 rec=3 cutfmt=1 uw=same_output.0:25;exit_model.0:25;exit.0:25;push.0:17;write.0:17 timeout=1800 mem=12 tier=thorough kind=stretch what=pairwise_grid_g_k5_h1_d3_a4_c3
+// @h prop=C02 unwind=10 rec=3 cutfmt=1 uw=same_output.0:25;exit_model.0:25;exit.0:25;push.0:17;write.0:17 timeout=3600 mem=12 tier=thorough kind=stretch what=pairwise_grid_g_k5_h1_d3_a4_c3
 ostep!(og_k5_h1_d3_a4_c3, Cfg { kind: 5, h: 1, d: 3, cur: 3, area: 4, npts: 0, dom: Dom::I8, depth: [0, 0, 0, 2, 0, 0], ..CFG0 });
-// @h prop=C02 unwind=10 rec=2 cutfmt=1 uw=same_output.0:25;exit_model.0:25;exit.0:25;push.0:17;write.0:17 timeout=1800 mem=12 tier=thorough kind=stretch what=pairwise_grid_g_k1_h2_d3_a1_c3
+// @h prop=C02 unwind=10 rec=2 cutfmt=1 uw=same_output.0:25;exit_model.0:25;exit.0:25;push.0:17;write.0:17 timeout=3600 mem=12 tier=thorough kind=stretch what=pairwise_grid_g_k1_h2_d3_a1_c3
 ostep!(og_k1_h2_d3_a1_c3, Cfg { kind: 1, h: 2, d: 3, cur: 3, area: 1, npts: 1, dom: Dom::I8, depth: [0, 0, 0, 2, 0, 0], ..CFG0 });
-// @h prop=C02 unwind=10 rec=2 cutfmt=1 uw=same_output.0:25;exit_model.0:25;exit.0:25;push.0:17;write.0:17 timeout=1800 mem=12 tier=thorough kind=stretch what=pairwise_grid_g_k3_h3_d0_a1_c4
+// @h prop=C02 unwind=10 rec=2 cutfmt=1 uw=same_output.0:25;exit_model.0:25;exit.0:25;push.0:17;write.0:17 timeout=3600 mem=12 tier=thorough kind=stretch what=pairwise_grid_g_k3_h3_d0_a1_c4
 ostep!(og_k3_h3_d0_a1_c4, Cfg { kind: 3, h: 3, d: 0, cur: 4, area: 1, npts: 1, dom: Dom::I8, depth: [0, 0, 0, 0, 3, 0], ..CFG0 });
